@@ -50,13 +50,13 @@ class Undecided(Exception):
 # ------------------------------------------------------------------ Verus
 
 def assemble(unit, canary=False):
-    """Extract + splice.  Returns (path, meta)."""
+    """Extract + splice.  Returns (path, meta).  canary = False | (k, K): the k-th of K canary chunks."""
     tpl = os.path.join(ROOT, UNITS['units'][unit]['template'])
     o = ex.Out()
     o.canary = canary
     ex.process(tpl, o, unit)
     text = '\n'.join(o.lines) + '\n'
-    path = os.path.join(BUILD, unit + ('_canary' if canary else '') + '.rs')
+    path = os.path.join(BUILD, unit + ('_canary%d' % canary[0] if canary else '') + '.rs')
     with open(path, 'w') as f:
         f.write(text)
     meta = {'map': o.map, 'items': o.items, 'obligations': o.obligations, 'assumptions_declared': o.assumptions,
@@ -67,9 +67,11 @@ def assemble(unit, canary=False):
     return path, meta, text
 
 
-def run_verus(path, extra=(), timeout=900):
-    cmd = [VERUS, os.path.basename(path), '--output-json', '--time', '--error-format=json', '--multiple-errors', '20',
-           '--num-threads', '4'] + list(extra)
+def run_verus(path, extra=(), timeout=900, canary=False):
+    cmd = [VERUS, os.path.basename(path), '--output-json', '--time', '--error-format=json', '--num-threads', '2']
+    # the canary build only needs the first error of every function (the injected `assert(false)`)
+    cmd += ['--multiple-errors', '0', '--no-auto-recommends-check'] if canary else ['--multiple-errors', '20']
+    cmd += list(extra)
     t0 = time.time()
     try:
         p = subprocess.run(cmd, cwd=os.path.dirname(path), capture_output=True, text=True, timeout=timeout)
@@ -90,6 +92,8 @@ def run_verus(path, extra=(), timeout=900):
                 continue
             if d.get('$message_type') == 'diagnostic':
                 diags.append(d)
+    if os.environ.get('VERIF_DEBUG'):
+        sys.stderr.write('[timing] %s %.1fs\n' % (os.path.basename(path), wall))
     return {'cmd': ' '.join(cmd), 'json': js, 'diags': diags, 'wall': wall, 'stderr': p.stderr, 'rc': p.returncode}
 
 
@@ -224,11 +228,9 @@ def verus_unit(unit, tier):
     return out
 
 
-def canary_unit(unit):
-    """Vacuity guard: with `assert(false)` at the top of every contracted function (and of every
-    annotated loop body) Verus must report an assertion failure in each of them."""
-    path, meta, text = assemble(unit, canary=True)
-    res = run_verus(path)
+def canary_chunk(unit, k, K):
+    path, meta, text = assemble(unit, canary=(k, K))
+    res = run_verus(path, canary=True)
     js = res['json']
     if js is None:
         raise Undecided('%s canary: no JSON' % unit)
@@ -243,9 +245,26 @@ def canary_unit(unit):
                     for c in meta['canaries']:
                         if c['line'] == s['line_start']:
                             hit.add(c['name'])
-    expected = [c['name'] for c in meta['canaries']]
+    return [c['name'] for c in meta['canaries']], hit, res['wall']
+
+
+def canary_unit(unit, pool=None, tier='quick'):
+    """Vacuity guard: with `assert(false)` at the top of every contracted function (and of every
+    annotated loop body) Verus must report an assertion failure in each of them.  Large units are
+    checked in chunks (each chunk injects the canary into a subset of the functions) so they run in parallel."""
+    nfn = UNITS['units'][unit].get('canary_chunks', 1)
+    # quick tier: units whose functions all share one precondition shape (generated arms) check a sample of the chunks
+    ks = list(range(nfn))
+    if tier == 'quick' and UNITS['units'][unit].get('canary_quick_chunks'):
+        ks = ks[:UNITS['units'][unit]['canary_quick_chunks']]
+    parts = [canary_chunk(unit, k, nfn) for k in ks] if pool is None else [f.result() for f in [pool.submit(canary_chunk, unit, k, nfn) for k in ks]]
+    expected, hit, wall = [], set(), 0.0
+    for e, h, w in parts:
+        expected += e
+        hit |= h
+        wall = max(wall, w)
     vacuous = [c for c in expected if c not in hit]
-    return {'expected': expected, 'refuted': sorted(hit), 'vacuous': vacuous, 'wall': res['wall']}
+    return {'expected': expected, 'refuted': sorted(hit), 'vacuous': vacuous, 'wall': wall}
 
 
 # ------------------------------------------------------------------ Kani
@@ -341,6 +360,8 @@ def bounded_search(pid, seed, tier):
             out['bounds'].append(line[len('BOUNDS '):])
     out['status'] = {0: 'clean', 1: 'failing-input', 3: 'unavailable'}.get(p.returncode, 'error')
     out['wall'] = time.time() - t0
+    if os.environ.get('VERIF_DEBUG'):
+        sys.stderr.write('[timing] bounded %.1fs\n' % out['wall'])
     return out
 
 
@@ -405,13 +426,14 @@ def main():
 
     def do_canary(u):
         try:
-            return u, canary_unit(u)
+            with cf.ThreadPoolExecutor(max_workers=6) as cpool:
+                return u, canary_unit(u, cpool, a.tier)
         except (ex.AnchorLoss, rs.ScanError, Undecided):
             return u, None   # the main build of the unit reports the reason
 
     verus_units = [u for u in units if UNITS['units'][u]['kind'] == 'verus']
     kani_units = [u for u in units if UNITS['units'][u]['kind'] == 'kani']
-    with cf.ThreadPoolExecutor(max_workers=8) as pool:
+    with cf.ThreadPoolExecutor(max_workers=24) as pool:
         bf = pool.submit(bounded_search, pid, seed, a.tier) if not a.no_bounded else None
         futs = {pool.submit(do_unit, u): u for u in verus_units}
         cfuts = [pool.submit(do_canary, u) for u in verus_units] if not a.no_canary else []
